@@ -59,7 +59,8 @@ def scale_graph(draw, raw_type, max_scales=5, types=('Linear', 'Polynomial', 'Ta
         elif t == 'Polynomial':
             k = draw(st.integers(0, 5))
             graph.append({'type': 'Polynomial', 'coeffs': [draw(_coef) for _ in range(k)], 'src': src,
-                          'explicit_src': explicit, 'size_prop': k != 4 or draw(st.booleans())})
+                          'explicit_src': explicit, 'size_prop': k != 4 or draw(st.booleans()),
+                          'prop_order': draw(st.sampled_from(['fwd', 'fwd', 'rev']))})
         elif t == 'Table':
             k = draw(st.integers(2, 5))
             # knots on a 1e-3 grid: distinct by a realistic margin (subnormal spacings make the segment slope overflow)
@@ -68,7 +69,8 @@ def scale_graph(draw, raw_type, max_scales=5, types=('Linear', 'Polynomial', 'Ta
             ys = [draw(_coef) for _ in range(k)]
             if draw(st.booleans()):
                 xs = xs[::-1]
-            graph.append({'type': 'Table', 'scaled': xs, 'pre': ys, 'src': src, 'explicit_src': explicit})
+            graph.append({'type': 'Table', 'scaled': xs, 'pre': ys, 'src': src, 'explicit_src': explicit,
+                          'prop_order': draw(st.sampled_from(['fwd', 'fwd', 'rev']))})
         else:
             graph.append({'type': 'AdvancedAPI', 'src': src, 'explicit_src': explicit})
     return graph
@@ -104,6 +106,10 @@ def graph_props(graph, with_count=True, status=None):
     for i, s in enumerate(graph):
         pre = 'NI_Scale[%d]_' % i
         t = s['type']
+        if i and graph[i - 1].get('prop_order') == 'rev':
+            # properties are found by name: the order in which a file lists them carries no meaning
+            props[block_start:] = props[block_start:][::-1]
+        block_start = len(props)
         props.append([pre + 'Scale_Type', 'str', t])
         if t == 'Linear':
             props.append([pre + 'Linear_Slope', 'f64', s['slope']])
@@ -162,6 +168,8 @@ def graph_props(graph, with_count=True, status=None):
             props.append([pre + 'Thermocouple_Input_Source', 'u32', _src_val(s['src'])])
         else:
             raise KeyError(t)
+    if graph and graph[-1].get('prop_order') == 'rev':
+        props[block_start:] = props[block_start:][::-1]
     return props
 
 
